@@ -159,8 +159,53 @@ func (ix *Index) targets(caller *ssa.Function, c *ssa.CallCommon) []*ssa.Functio
 			}
 		}
 	}
-	ts := ix.P.Callees(c)
 	var out []*ssa.Function
+	if !c.IsInvoke() {
+		// a function value looked up by a module function (a handler table): whatever method values
+		// that function can return
+		if call, ok := c.Value.(*ssa.Call); ok {
+			if g := call.Call.StaticCallee(); g != nil && inModule(g) && g.Blocks != nil {
+				seen := map[ssa.Value]bool{}
+				var walk func(v ssa.Value)
+				walk = func(v ssa.Value) {
+					if seen[v] {
+						return
+					}
+					seen[v] = true
+					if ph, ok := v.(*ssa.Phi); ok {
+						for _, e := range ph.Edges {
+							walk(e)
+						}
+						return
+					}
+					if f := methodOfValue(v); f != nil && inModule(f) {
+						out = append(out, f)
+					}
+				}
+				for _, b := range g.Blocks {
+					if r, ok := b.Instrs[len(b.Instrs)-1].(*ssa.Return); ok && len(r.Results) >= 1 {
+						walk(r.Results[0])
+					}
+				}
+			}
+		}
+	}
+	if !c.IsInvoke() && c.StaticCallee() == nil {
+		// a function value looked up in a package-level map (a handler table)
+		if _, table := handlerMapOf(ix.P, c.Value); len(table) > 0 {
+			keys := make([]string, 0, len(table))
+			for k := range table {
+				keys = append(keys, k)
+			}
+			sort.Strings(keys)
+			for _, k := range keys {
+				if inModule(table[k]) {
+					out = append(out, table[k])
+				}
+			}
+		}
+	}
+	ts := ix.P.Callees(c)
 	for _, t := range ts {
 		if inModule(t) {
 			out = append(out, t)
@@ -576,6 +621,15 @@ func namedType(p *Prog, pkg, name string) types.Type {
 		if o := pk.Types.Scope().Lookup(name); o != nil {
 			return o.Type()
 		}
+	}
+	return nil
+}
+
+// tcallsOf: the transitive callees of fn, empty for a function without index entry (a synthetic
+// wrapper).
+func tcallsOf(p *Prog, fn *ssa.Function) map[*ssa.Function]bool {
+	if fi := p.Index().Info[fn]; fi != nil {
+		return fi.TCalls
 	}
 	return nil
 }
